@@ -42,6 +42,8 @@ SEEDS = {
     "muxlist": [["ac", "S1", "R", "A1", ""], ["ac", ["S1", "A1"], "m", "MX", ""], ["ac", "MX", "I", "A3", ""]],
     # two rectifiers separated by a series element (every kind on the path; links that a del_childs=False re-link creates are links add_comp must accept)
     "rect": [["ac", "S1", "D", "A1", ""], ["ac", "A1", "R", "A2", ""], ["ac", "A2", "D", "A3", ""], ["ac", "A3", "I", "A4", ""]],
+    # a system that was LOADED from a file in the layout of release 1.0.x (registries created by from_file, not by the constructor)
+    "oldfile": [["ac", "S1", "C", "A1", ""], ["ac", "A1", "I", "A2", ""], ["ac", "S1", "R", "A3", ""], ["rlo"]],
     "freed": [["ac", "S1", "R", "A1", ""], ["ac", "A1", "I", "A2", ""], ["ac", "S1", "C", "A3", ""], ["dc", "A1", True]],
 }
 
@@ -82,6 +84,20 @@ def apply(s, op):
         else:
             arg = op[2]
         s.set_comp_phases(op[1], arg)
+    elif k == "rlo":  # the system is saved, the file rewritten in the layout of release 1.0.x (no groups / rails tables) and loaded again IN PLACE
+        import os as _os
+        pth = _os.path.join(common.workdir("e2"), "old_%d.json" % _os.getpid())
+        s.save(pth)
+        doc = json.load(open(pth))
+        doc["system"].pop("groups", None)
+        doc["system"].pop("rails", None)
+        doc["system"]["version"] = "1.0.0"
+        json.dump(doc, open(pth, "w"))
+        s2 = quiet_call(System.from_file, pth)[0]
+        s._g = s2._g
+        for a_ in ("_parents", "_childs", "_topo_nodes", "_phase_lkup"):
+            if hasattr(s, a_):
+                delattr(s, a_)
     elif k == "anp":  # a cheap analysis (params) that refreshes the relationship caches
         s.params()
     elif k == "an":  # an analysis call in the middle of an edit history (must not influence anything later)
@@ -104,6 +120,8 @@ def step(s, ghost, op, werror=False):
     except Exception as e:
         exc = e
     after = set(s._g.node_indices())
+    if op[0] == "rlo" and exc is None:
+        return (), None          # a freshly loaded graph has no freed indices
     g2 = list(ghost)
     for x in sorted(before - after):
         g2.append(x)
@@ -386,7 +404,7 @@ def model_apply(models, op):
         elif k == "sp":
             m["phases"] = _pj(dict((a, b) for a, b in op[1]))
             out.append(m)
-        elif k in ("an", "anp"):
+        elif k in ("an", "anp", "rlo"):
             out.append(m)
         elif k == "cp":
             t = _owner(m, op[1])
@@ -411,7 +429,10 @@ def struct_matches(real, model):
         elif r["params"] != _pj(LET[m["letter"]](n)._params):
             d.append("%s params differ" % n)
         elif r["limits"] != _pj(LET[m["letter"]](n)._limits):
-            d.append("%s limits differ" % n)
+            # a component that came out of a file carries its APPLICABLE limits only: same limits, fewer keys
+            rl, el = json.loads(r["limits"]), json.loads(_pj(LET[m["letter"]](n)._limits))
+            if not (isinstance(rl, dict) and all(k_ in el and el[k_] == v_ for k_, v_ in rl.items())):
+                d.append("%s limits differ" % n)
         pr, pm = r["parents"], m["parents"]
         if (pr != pm) if len(pm) > 1 else (sorted(pr) != sorted(pm)):
             d.append("%s parents %r vs %r" % (n, pr, pm))
